@@ -434,7 +434,7 @@ def _impl(case):
 
 
 def underflow_within_bounds(case):
-    """finding F9: with per-observation limits the lifetime search interval starts at 0.1*min(tmin) (or 1e-8), where
+    """finding F13: with per-observation limits the lifetime search interval starts at 0.1*min(tmin) (or 1e-8), where
     exp(-tmin_i/tau) of an observation with a much larger tmin_i underflows to 0 and the window probability becomes
     log(0): true iff some (tmin_i - step_i)/tau_lower exceeds 700"""
     n = len(case["t"])
@@ -1145,7 +1145,7 @@ def gen_obs(rng, amps, taus, discrete, n, per_obs, one_scale=False):
         return t, tmin, ("inf" if tmax == math.inf else tmax), step
     classes = [gen_window(rng, taus, discrete) for _ in range(rng.randint(2, 3))]
     if one_scale:
-        # kymographs whose line times differ by less than a factor 8 (see finding F9 for what happens beyond ~75)
+        # kymographs whose line times differ by less than a factor 8 (see finding F13 for what happens beyond ~75)
         tmin0, _, step0 = classes[0]
         for j in range(1, len(classes)):
             f = rng.choice([0.5, 2.0, 4.0, 0.25, 1.0])
